@@ -1,6 +1,9 @@
 //! suite `overflow` (C05, C16; thorough tier only — each case serializes 2^31 elements, ≈ 15–40 s):
 //! element counts at and just beyond the 32 bit offset type, with a counting `Serialize` impl so that no
 //! memory is needed (`List<Null>` column: the child only counts).
+//! Both tiers (milliseconds): kind `deep_term` — a `data_type` text `A(A(…I8…))` nested `n` levels deep handed to
+//! `SerdeArrowSchema::from_value` (fix c368604: before it the recursive descent of `Term::from_str` exhausted the
+//! stack from some 50 000 levels on — an abort of the process, which `./check` attributes to the case).
 use crate::outcome;
 use crate::Ctx;
 use marrow::datatypes::{DataType, Field};
@@ -29,18 +32,42 @@ impl Serialize for Row {
     }
 }
 
+fn deep_term_cases() -> Vec<Value> {
+    [0u64, 1, 3, 32, 33, 1000, 100_000, 1_000_000]
+        .iter()
+        .enumerate()
+        .map(|(k, n)| json!({"id": format!("overflow-0001{k:02}"), "seed": 0, "kind": "deep_term", "n": n}))
+        .collect()
+}
+
+fn exec_deep_term(input: &Value) -> Value {
+    use serde_arrow::schema::{SchemaLike, SerdeArrowSchema};
+    let n = input["n"].as_u64().unwrap() as usize;
+    let text = format!("{}I8{}", "A(".repeat(n), ")".repeat(n));
+    let imp = outcome::run(|| {
+        let v = json!([{"name": "a", "data_type": text}]);
+        let _schema = SerdeArrowSchema::from_value(&v)?;
+        Ok::<Value, serde_arrow::Error>(json!({"accepted": true}))
+    });
+    let mut case = input.clone();
+    case.as_object_mut().unwrap().insert("impl".into(), imp);
+    case
+}
+
 pub fn gen(ctx: &Ctx) -> Vec<Value> {
     if !ctx.thorough() {
-        return Vec::new();
+        return deep_term_cases();
     }
-    vec![
+    let mut cases = vec![
         json!({"id": "overflow-000000", "seed": 0, "kind": "list_null", "n": 2147483647u64}),
         json!({"id": "overflow-000001", "seed": 0, "kind": "list_null", "n": 2147483648u64}),
         // n values of 1 MiB each into ONE Utf8View column: value i goes to buffer offset i * 2^20, which fits the
         // descriptor's i32 offset iff i <= 2047 (≈ 2 GiB of memory, a few seconds)
         json!({"id": "overflow-000002", "seed": 0, "kind": "view_bytes", "n": 2048u64}),
         json!({"id": "overflow-000003", "seed": 0, "kind": "view_bytes", "n": 2050u64}),
-    ]
+    ];
+    cases.extend(deep_term_cases());
+    cases
 }
 
 #[derive(serde::Serialize)]
@@ -71,6 +98,9 @@ fn exec_view_bytes(input: &Value) -> Value {
 pub fn exec(input: &Value) -> Value {
     if input["kind"] == "view_bytes" {
         return exec_view_bytes(input);
+    }
+    if input["kind"] == "deep_term" {
+        return exec_deep_term(input);
     }
     let n = input["n"].as_u64().unwrap();
     let fields = vec![Field {
